@@ -346,7 +346,10 @@ func handleRefreshRequest(req Request, stunMsg *stun.Message) error {
 	}
 
 	if lifetimeDuration != 0 {
-		a.Refresh(lifetimeDuration)
+		if !a.Refresh(lifetimeDuration) {
+			// The lifetime ran out while this request was being handled.
+			return fmt.Errorf("%w %v:%v", errNoAllocationFound, req.SrcAddr, req.Conn.LocalAddr())
+		}
 	} else {
 		req.AllocationManager.DeleteAllocation(fiveTuple)
 	}
